@@ -124,13 +124,21 @@ class Check:
                     break
             else:
                 violations.append(inst)
+        floor_errors = []
         if self.only is None:
             for rule, minimum, what in self.floors:
                 count = sum(1 for inst in self.instances if inst.rule == rule)
                 if count < minimum:
-                    self.errors.append(
+                    floor_errors.append(
                         'instance floor not met for rule %s: %d < %d%s' % (
                             rule, count, minimum, ' (%s)' % what if what else ''))
+        if floor_errors and violations and not self.errors:
+            # the rules that did find their constructs report violations: those stand; the
+            # thinned-out rule is named with them instead of voiding the run
+            for text in floor_errors:
+                self.notes.append(text)
+        else:
+            self.errors.extend(floor_errors)
         wall = time.time() - self.started
         if not self.quiet:
             print('== %s (%s) ==' % (self.prop_id, self.tier), file=out)
